@@ -333,6 +333,7 @@ pub fn run(args: &Args, out: &Out) -> i32 {
         "wblock" => special::wblock(&mut cx, args, &mut rng),
         "api" => api::walk(&mut cx, args, &mut rng),
         "clones" => api::clones(&mut cx, args, &mut rng),
+        "order" => api::order(&mut cx, args, &mut rng),
         "replay" => api::replay(&mut cx, args, &mut rng),
         "threads" => threads::run(&mut cx, args, &mut rng),
         "types" => {
